@@ -83,10 +83,10 @@ def make_doubles():
             w = self.world
             w.polls += 1
             item = w.script.pop(0) if w.script else 'nothing'
-            for _ in range({'arrive': 1, 'arrive_close': 1, 'arrive2': 2, 'arrive2_close': 2}.get(item, 0)):
+            for _ in range({'arrive': 1, 'arrive_close': 1, 'arrive3': 3, 'arrive3_close': 3}.get(item, 0)):
                 self._parser.feed(arrival(w.nextid).bytes())
                 w.nextid += 1
-            if item in ('close', 'arrive_close', 'arrive2_close'):
+            if item in ('close', 'arrive_close', 'arrive3_close'):
                 self.close()
 
         def _send(self, msg):
@@ -232,6 +232,12 @@ def replay_history(kind, autoreset, script, hist, fclosed, fq, flog):
                     got_k, got_v = 'list', [ident(r, kind) for r in port]
                 elif op == 'iter_pending':
                     got_k, got_v = 'list', [ident(r, kind) for r in port.iter_pending()]
+                elif op == 'iter_take':
+                    got_k, got_v = 'list', []
+                    for r in port:
+                        got_v.append(ident(r, kind))
+                        if len(got_v) == 2:
+                            break              # the consumer leaves the loop
                 elif op == 'close':
                     port.close()
                     got_k = 'ok'
